@@ -85,6 +85,10 @@ try:
     rc0, out0 = sh(runcmd)
     conf["demo_without_change"] = {"rc": rc0, "tail": out0[-400:]}
     rc, out = sh("git apply " + os.path.join(dst, "patch.diff"))
+    if rc != 0:
+        # the tree has moved on since the change was written (later fix: / hook commits): three-way merge
+        rc, out = sh("git apply -3 " + os.path.join(dst, "patch.diff") + " && git reset -q")
+        conf["apply_three_way"] = True
     conf["apply"] = rc
     rcb, outb = sh("go build ./... ")
     conf["build_with_change"] = rcb
